@@ -60,6 +60,10 @@ class Checker:
             nontrivial=True, nf=None):
         if line is None and node is not None:
             line = getattr(node, 'lineno', None)
+            try:
+                line = self.src.orig_line(file, line)
+            except Exception:
+                pass
         self.functions.add(f'{file}:{func}')
         ob = Ob(self.prop, rule, file, func, key, line, verdict, detail, witness, nontrivial, nf)
         self.obs.append(ob)
